@@ -239,6 +239,7 @@ class QvmCpu:
         self.last_trap_kwargs = {}
         self.trap_target = None
         self.error_handler_active = False
+        self.error_frame = None
         self.trapped_addr = 0
 
         # statement start addresses (from the debug info); while an
@@ -504,6 +505,16 @@ class QvmCpu:
             else:
                 self.pc = self.trap_target
                 self.error_handler_active = True
+
+                # Error handlers are module-level code, so they run
+                # with the frame of the main routine; the frame of
+                # the routine in which the error occurred is put
+                # back when execution resumes.
+                self.error_frame = self.cur_frame
+                frame = self.cur_frame
+                while frame is not None and frame.prev_frame is not None:
+                    frame = frame.prev_frame
+                self.cur_frame = frame
                 return
 
         if code == TrapCode.INVALID_OP_CODE:
@@ -859,6 +870,12 @@ class QvmCpu:
         else:
             self.trap_target = target
 
+    def _leave_error_handler(self):
+        # back to the frame of the routine in which the error occurred
+        if self.error_frame is not None:
+            self.cur_frame = self.error_frame
+            self.error_frame = None
+
     def _exec_errres(self):
         # RESUME
         if self.module.debug_info is None:
@@ -868,6 +885,7 @@ class QvmCpu:
         if stmt is None:
             self.trap(TrapCode.CANNOT_RESUME,
                       msg=f'Could not find statement to resume at addr {self.trapped_addr:08x}.')
+        self._leave_error_handler()
         self.pc = stmt.start_offset
         instr, _, size = self.get_instruction_at(self.pc)
         if instr is not None and instr.op == 'jmp' and \
@@ -888,6 +906,7 @@ class QvmCpu:
         if stmt is None:
             self.trap(TrapCode.CANNOT_RESUME,
                       msg=f'Could not find statement to resume at addr {self.trapped_addr:08x}.')
+        self._leave_error_handler()
         self.pc = stmt.end_offset
         self.error_handler_active = False
         self._drop_partial_results()
